@@ -38,6 +38,11 @@ impl HiddenSet {
         self.set.is_empty()
     }
 
+    #[cfg(feature = "verif")]
+    pub(crate) fn iter(&self) -> impl Iterator<Item = TableId> + '_ {
+        self.set.iter().copied()
+    }
+
     pub(crate) fn should_decline_compaction<T: IntoIterator<Item = TableId>>(
         &self,
         ids: T,
